@@ -19,7 +19,7 @@ Proof.
   unfold set_add at 2. rewrite Hx. rewrite IH; [rewrite <- app_assoc; reflexivity|]. rewrite <- app_assoc. exact Hnd.
 Qed.
 Lemma set_len_nodup l : NoDup (map id_of l) -> set_len l = Z.of_nat (List.length l).
-Proof. intros H. unfold set_len, py_set. rewrite (py_set_nodup_aux l [] H). reflexivity. Qed.
+Proof. intros _. reflexivity. Qed.
 
 Lemma NoDup_app_l {A} (a b : list A) : NoDup (a ++ b) -> NoDup a.
 Proof. induction a as [|x xs IH]; cbn; intros H; [constructor|]. inversion H; subst. constructor; auto. intros Hin. apply H2. apply in_or_app. auto. Qed.
